@@ -88,11 +88,13 @@ theorem applyDefaults_nonobject' (env : VEnv) (fuel : Nat) (id : NodeId) (inst o
 /-! ## validateDefaults -/
 
 /-- definition level: validateDefaults succeeds iff the root exists with a supported `$schema`, no schema of the tree uses
-    `$dynamicRef`, and every default validates against its own schema -/
+    `$dynamicRef` — under 2020-12 (`env.draft = .d2020`): under draft-07 it is an unknown keyword and is not refused —
+    and every default validates against its own schema -/
 theorem validateDefaults_iff (env : VEnv) (supported : List String) (fuel : Nat) (root : NodeId) :
     Go.validateDefaults env supported fuel root = .ok () ↔
       (∃ rn, env.st.get? root = some rn ∧ supported.contains rn.schema = true) ∧
-      (∀ id ∈ allNodes env.st (env.st.size + 2) [root], ∀ n, env.st.get? id = some n → n.dynamicRef = "") ∧
+      (∀ id ∈ allNodes env.st (env.st.size + 2) [root], ∀ n, env.st.get? id = some n →
+        env.draft = .d2020 → n.dynamicRef = "") ∧
       (∀ id ∈ allNodes env.st (env.st.size + 2) [root], ∀ n d, env.st.get? id = some n → n.default = some d →
         (validateFuel env fuel [] (GoVal.ofJson d) id).isOk = true) := by
   unfold Go.validateDefaults
@@ -137,13 +139,15 @@ theorem default_ok_iff_valid (env : VEnv) (hwf : EnvWF env) (hst : StoreWF env.s
     | some ev => obtain ⟨a, ha, _⟩ := hrel; rw [ha]; subst hs; rfl
 
 /-- Spec level: under a well-formed environment, when the defaults are well-formed JSON and the Spec decides each of them,
-    validateDefaults succeeds iff there is no `$dynamicRef` and every default is valid against its schema -/
+    validateDefaults succeeds iff there is no `$dynamicRef` (2020-12 only; draft-07 ignores the keyword) and every default
+    is valid against its schema -/
 theorem validateDefaults_spec (env : VEnv) (hwf : EnvWF env) (hst : StoreWF env.st) (supported : List String) (fuel : Nat)
     (root : NodeId) (rn : Node) (hroot : env.st.get? root = some rn) (hsup : supported.contains rn.schema = true)
     (hdec : ∀ id ∈ allNodes env.st (env.st.size + 2) [root], ∀ n d, env.st.get? id = some n → n.default = some d →
       Json.WF d = true ∧ (Spec.valid (specEnvOf env) fuel id d).isSome = true) :
     Go.validateDefaults env supported fuel root = .ok () ↔
-      (∀ id ∈ allNodes env.st (env.st.size + 2) [root], ∀ n, env.st.get? id = some n → n.dynamicRef = "") ∧
+      (∀ id ∈ allNodes env.st (env.st.size + 2) [root], ∀ n, env.st.get? id = some n →
+        env.draft = .d2020 → n.dynamicRef = "") ∧
       (∀ id ∈ allNodes env.st (env.st.size + 2) [root], ∀ n d, env.st.get? id = some n → n.default = some d →
         Spec.valid (specEnvOf env) fuel id d = some true) := by
   rw [validateDefaults_iff]
@@ -288,7 +292,8 @@ theorem exEnv_defaults_decided :
   exact this
 
 example : Go.validateDefaults exEnv [""] 3 0 = .ok () ↔
-    (∀ id ∈ allNodes exEnv.st (exEnv.st.size + 2) [0], ∀ n, exEnv.st.get? id = some n → n.dynamicRef = "") ∧
+    (∀ id ∈ allNodes exEnv.st (exEnv.st.size + 2) [0], ∀ n, exEnv.st.get? id = some n →
+      exEnv.draft = .d2020 → n.dynamicRef = "") ∧
     (∀ id ∈ allNodes exEnv.st (exEnv.st.size + 2) [0], ∀ n d, exEnv.st.get? id = some n → n.default = some d →
       Spec.valid (specEnvOf exEnv) 3 id d = some true) :=
   validateDefaults_spec exEnv exEnv_wf exEnv_store [""] 3 0 _ rfl (by decide) exEnv_defaults_decided
